@@ -139,6 +139,9 @@ int knob(const char* name, int dflt);
 std::string currentDecisions();
 uint64_t currentHash();
 std::vector<std::string> currentTail();
+void setCrashWriter(void (*w)(const char* key)); // must be async-signal-safe
+size_t formatDecisions(char* buf, size_t n);       // async-signal-safe rendering of the decision log
+void setSpin(int iterations);
 void installCrashHandlers();  // SIGSEGV/SIGBUS/SIGABRT/SIGFPE -> hard failure report
 void reportExternalCrash(const char* cls, const char* key, const char* msg); // e.g. sanitizer death callback
 
